@@ -24,6 +24,7 @@ func init() {
 	ruleText["R10.3"] = "every reflect.Select in a run-time closure has a case loaded, at execution time, from frame.done of the frame it runs in (never a cancellation case cached in per-statement state by an earlier evaluation)"
 	ruleText["R10.4"] = "the exported context-taking entry points write the same set of Interpreter fields (directly or through unexported helpers) before starting the evaluation goroutine: the cancellation state is renewed identically by all of them"
 	ruleText["R10.5"] = "same analysis as C08/R08.3: every Lock/RLock of a mutex is released on every control-flow path to a function exit; an entry point that gives up early (expired context) with the interpreter's mutex held blocks every later evaluation"
+	ruleText["R10.6"] = "= R06.2 (consumer side) shared: the unwinding function of runCfg runs the deferred records of every frame, cancelled or not - the list it consumes is frame.deferred, assigned once"
 	ruleText["R10.2"] = "in a function literal passed to reflect.MakeFunc, the id passed to newFrame is not the runid() of a frame captured at creation time (a free variable): such an id is frozen while stop() advances the interpreter's id forever"
 }
 
@@ -96,6 +97,28 @@ func runC10(c *Config, r *Report) {
 	// with interp.mutex held blocks every later evaluation): the analysis of C08/R08.3
 	lockPairing(ic, r, "R10.5")
 	c10R2(ic, r, "R10.2")
+	// R10.6: = R06.2 on the consumer of the deferred records: a cancelled frame unwinds like any
+	// other, its deferred compiled calls (mu.Unlock, wg.Done, close) release what earlier
+	// definitions share with it.
+	{
+		sub := newReport("C06")
+		c06R2(ic, sub)
+		n := 0
+		for _, o := range sub.Obls {
+			if strings.Contains(o.Key, "/consumer/") {
+				o.Rule = "R10.6"
+				if !o.OK {
+					o.Detail += "; a function cancelled while it holds a lock released by a deferred Unlock leaves it held, and every earlier definition using that lock blocks for ever"
+				}
+				r.add(o)
+				n++
+			}
+		}
+		r.Errors = append(r.Errors, sub.Errors...)
+		if n == 0 {
+			r.Errorf("R10.6: the consumer of the deferred records was not found")
+		}
+	}
 }
 
 // c10R2: see ruleText["R10.2"]; shared with C07.
